@@ -86,3 +86,9 @@ impl WriteBackend for WarmUpAccessBackend {
         self.be.remove(tpe, id, cacheable)
     }
 }
+
+#[cfg(rustic_core_verif)]
+#[allow(missing_docs, unused_imports, dead_code, clippy::all, clippy::pedantic, clippy::nursery)]
+pub mod verif_hooks {
+    use super::*;
+}
